@@ -26,27 +26,20 @@ pub fn parse_cfg<'a>(toks: &[&'a str]) -> std::collections::HashMap<&'a str, &'a
         .collect()
 }
 
-fn process(input: &mut dyn BufRead, out: &mut dyn Write) {
+/// Runs the operation lines of one case in a worker thread; the caller waits for every
+/// answer with a timeout, so that a hanging operation (deadlock, livelock) is reported
+/// as `CRASH hang` for that operation and does not block the remaining cases.
+fn run_case(lines: Vec<String>, tx: std::sync::mpsc::Sender<String>) {
     let mut runner: Option<Box<dyn Runner>> = None;
     let mut dead = false;
     let mut idx = 0usize;
-    for line in input.lines() {
-        let line = line.expect("read error");
-        let line = line.trim();
-        if line.is_empty() || line.starts_with('#') {
-            continue;
-        }
+    for line in lines {
         let toks: Vec<&str> = line.split_whitespace().collect();
-        match toks[0] {
-            "case" => {
-                writeln!(out, "{}", line).unwrap();
-                runner = None;
-                dead = false;
-                idx = 0;
-            }
-            "cfg" => {
-                let cfg = parse_cfg(&toks[1..]);
-                runner = Some(match cfg.get("kind").copied() {
+        if toks[0] == "cfg" {
+            let cfg = parse_cfg(&toks[1..]);
+            let kind = cfg.get("kind").copied();
+            let r: Result<Box<dyn Runner>, _> = std::panic::catch_unwind(std::panic::AssertUnwindSafe(|| -> Box<dyn Runner> {
+                match kind {
                     Some("sketch") => Box::new(sketch_mode::SketchRunner::default()),
                     Some("conc") => Box::new(conc_mode::ConcRunner::new(&cfg)),
                     Some("config") => Box::new(config_mode::ConfigRunner),
@@ -54,32 +47,99 @@ fn process(input: &mut dyn BufRead, out: &mut dyn Write) {
                     Some("sync") => Box::new(sync_mode::SyncRunner::new(&cfg)),
                     Some("unsync") => Box::new(unsync_mode::UnsyncRunner::new(&cfg)),
                     k => panic!("unknown kind {:?}", k),
-                });
-            }
-            _ => {
-                if !dead {
-                    let r = runner.as_mut().expect("operation before cfg");
-                    let res = std::panic::catch_unwind(std::panic::AssertUnwindSafe(|| r.step(&toks)));
-                    match res {
-                        Ok(s) => writeln!(out, "{} {} -> {}", idx, line, s).unwrap(),
-                        Err(e) => {
-                            let msg = if let Some(s) = e.downcast_ref::<String>() {
-                                s.clone()
-                            } else if let Some(s) = e.downcast_ref::<&str>() {
-                                s.to_string()
-                            } else {
-                                "?".to_string()
-                            };
-                            writeln!(out, "{} {} -> ERR {}", idx, line, classify_panic(&msg)).unwrap();
-                            dead = true;
-                            // the runner may be in a broken state: leak it rather than drop it
-                            std::mem::forget(runner.take());
-                        }
-                    }
                 }
-                idx += 1;
+            }));
+            match r {
+                Ok(r) => runner = Some(r),
+                Err(_) => {
+                    let _ = tx.send(format!("{} {} -> ERR Panic [cache construction panicked]", idx, line));
+                    dead = true;
+                }
+            }
+            continue;
+        }
+        if !dead {
+            let _ = tx.send(format!("@begin {} {}", idx, line));
+            let r = runner.as_mut().expect("operation before cfg");
+            let res = std::panic::catch_unwind(std::panic::AssertUnwindSafe(|| r.step(&toks)));
+            match res {
+                Ok(s) => {
+                    let _ = tx.send(format!("{} {} -> {}", idx, line, s));
+                }
+                Err(e) => {
+                    let msg = if let Some(s) = e.downcast_ref::<String>() {
+                        s.clone()
+                    } else if let Some(s) = e.downcast_ref::<&str>() {
+                        s.to_string()
+                    } else {
+                        "?".to_string()
+                    };
+                    let _ = tx.send(format!("{} {} -> ERR {}", idx, line, classify_panic(&msg)));
+                    dead = true;
+                    // the runner may be in a broken state: leak it rather than drop it
+                    std::mem::forget(runner.take());
+                }
             }
         }
+        idx += 1;
+    }
+    let _ = tx.send("@end".to_string());
+}
+
+fn process(input: &mut dyn BufRead, out: &mut dyn Write) {
+    // group the input into cases
+    let mut cases: Vec<(String, Vec<String>)> = Vec::new();
+    for line in input.lines() {
+        let line = line.expect("read error");
+        let line = line.trim().to_string();
+        if line.is_empty() || line.starts_with('#') {
+            continue;
+        }
+        if line.starts_with("case") {
+            cases.push((line, Vec::new()));
+        } else {
+            if cases.is_empty() {
+                cases.push(("case anonymous".to_string(), Vec::new()));
+            }
+            cases.last_mut().unwrap().1.push(line);
+        }
+    }
+    let op_timeout = std::time::Duration::from_secs(
+        std::env::var("VERIF_OP_TIMEOUT").ok().and_then(|s| s.parse().ok()).unwrap_or(20),
+    );
+    for (header, lines) in cases {
+        writeln!(out, "{}", header).unwrap();
+        let (tx, rx) = std::sync::mpsc::channel::<String>();
+        let handle = std::thread::Builder::new()
+            .stack_size(16 << 20)
+            .spawn(move || run_case(lines, tx))
+            .expect("spawn");
+        let mut current: Option<String> = None;
+        loop {
+            match rx.recv_timeout(op_timeout) {
+                Ok(l) if l == "@end" => {
+                    let _ = handle.join();
+                    break;
+                }
+                Ok(l) if l.starts_with("@begin ") => current = Some(l[7..].to_string()),
+                Ok(l) => {
+                    current = None;
+                    writeln!(out, "{}", l).unwrap();
+                }
+                Err(std::sync::mpsc::RecvTimeoutError::Timeout) => {
+                    let c = current.clone().unwrap_or_else(|| "? ?".to_string());
+                    writeln!(out, "{} -> CRASH hang (the operation did not return within {} s)", c, op_timeout.as_secs()).unwrap();
+                    // abandon the worker thread (it only holds its own cache's locks)
+                    break;
+                }
+                Err(std::sync::mpsc::RecvTimeoutError::Disconnected) => {
+                    let c = current.clone().unwrap_or_else(|| "? ?".to_string());
+                    writeln!(out, "{} -> CRASH worker thread died", c).unwrap();
+                    break;
+                }
+            }
+        }
+        out.flush().unwrap();
     }
 }
 
